@@ -8,6 +8,7 @@ package ref
 import (
 	"encoding/json"
 	"fmt"
+	"math"
 	"sort"
 	"strconv"
 	"strings"
@@ -59,6 +60,10 @@ type Result struct {
 	FaultPoints  []string // Invocations plus invocations of fallible bound methods
 	DirCalls     []string
 	Stats        Stats
+	// LateDropped: failures that would happen only while the payload is written, at positions that
+	// null propagation removed (never written, so never raised). An execution that does write such a
+	// position - @defer stops propagation at the group's object - legitimately reports them.
+	LateDropped []ErrExp
 	// MutationOrder: root field response keys in required serial order (mutations only)
 	MutationOrder []string
 }
@@ -72,6 +77,8 @@ type exec struct {
 	res   *Result
 	sch   *ast.Schema
 	depth int
+	// late: positions whose value fails only when the payload is written (non-finite Float)
+	late []pathT
 }
 
 // Execute runs operation opName of doc against the world of env under plan.
@@ -138,9 +145,42 @@ func Execute(env *univ.Env, plan univ.Plan, doc *ast.QueryDocument, opName strin
 }
 
 func (x *exec) finish() {
+	// a failure that happens while the payload is written exists only for positions that are
+	// written: one inside a subtree that null propagation discarded never happens
+	for _, p := range x.late {
+		if reaches(x.res.Data, p) {
+			x.addErr(p, "nonfinite")
+		} else {
+			x.res.LateDropped = append(x.res.LateDropped, ErrExp{p.String(), "nonfinite"})
+		}
+	}
+	x.late = nil
 	sort.Strings(x.res.Invocations)
 	sort.Strings(x.res.DirCalls)
 	sort.Slice(x.res.Errors, func(i, j int) bool { return x.res.Errors[i].String() < x.res.Errors[j].String() })
+}
+
+// reaches reports whether path p leads to a position present in data.
+func reaches(data *sjson.Value, p pathT) bool {
+	cur := data
+	for _, e := range p {
+		if cur == nil {
+			return false
+		}
+		switch k := e.(type) {
+		case string:
+			if cur.Kind != sjson.Object {
+				return false
+			}
+			cur = cur.Get(k)
+		case int:
+			if cur.Kind != sjson.Array || k >= len(cur.Arr) {
+				return false
+			}
+			cur = cur.Arr[k]
+		}
+	}
+	return cur != nil
 }
 
 func isBuiltinDirective(n string) bool {
@@ -515,6 +555,11 @@ func (x *exec) completeNullable(t *ast.Type, val *univ.Val, sel ast.SelectionSet
 		}
 		return out, false
 	default:
+		if f, ok := val.Scalar.(float64); ok && (math.IsNaN(f) || math.IsInf(f, 0)) {
+			// no JSON form: the position is answered null with one error at its path
+			x.late = append(x.late, path)
+			return sjson.N(), false
+		}
 		return scalarJSON(val.Scalar), false
 	}
 }
